@@ -1,5 +1,11 @@
 package main
 
+import (
+	"strings"
+
+	"golang.org/x/tools/go/ssa"
+)
+
 type PropSpec struct {
 	Level       string
 	Explanation string
@@ -11,39 +17,62 @@ type PropSpec struct {
 var properties = map[string]PropSpec{
 	"C06": {
 		Level: "other",
-		Explanation: "wip",
+		Explanation: "Decides the clauses of C06 that are visible in the shape of the code. (1) R-TT: the return paths of Condition.Valid are enumerated exactly and compared, row by row, with the table the property states (nil iff keyword non-empty, operator present - a built-in one within 1..6 - and expression non-nil; an installed validity closure decides instead); the same for the expression filter (defaultAssertionExpressionHandler / assertConditionExpressionValue: empty string, nil, Stack under no-nesting, pending error are refused) and for condition.string (parentheses iff requested, padding iff not disabled). (2) R-CONDSTORE: keyword/operator/expression are written only by their setters and only after the acceptance test (operator: non-nil with non-empty Context() and String(); expression: the value the filter returned with ok==true), so a rejected argument leaves the previous value; Cond records Valid()'s verdict via SetErr; Condition.String renders only when Valid()==nil and returns \"\" otherwise. (3) R-NIL/R-REFL restricted to everything reachable from Cond, Init and the setters/getters: no call panics on nil, empty or wrongly typed arguments.",
+		NotDecided: "the exact rendered text (spacing, encapsulated expression rendering) - a string-valued functional property (C02's undecided part); behaviour of user Operator/Stringer implementations",
 		Run: func(c *Ctx) {
 			c.ruleInv()
 			c.ttCondValid()
 			c.ttCondExprHandler()
 			c.ruleCondStores()
 			c.ttCondString()
+			var roots []*ssa.Function
+			for _, m := range c.api {
+				if m.Name == "Cond" || (m.Recv == "Condition" && (strings.HasPrefix(m.Name, "Set") || m.Name == "Init" || m.Name == "Valid" || m.Name == "String" || m.Name == "Keyword" || m.Name == "Operator" || m.Name == "Expression" || m.Name == "Err")) {
+					roots = append(roots, m.Fn)
+				}
+			}
+			scope := c.reach(roots...)
+			c.ruleCensus(scope, map[string]bool{"R-NIL": true, "R-REFL": true})
+			c.rep.floor("R-TT", 4)
+			c.rep.floor("R-CONDSTORE", 6)
+			c.rep.floor("R-NIL", 150)
 		},
 	},
 	"C14": {
 		Level: "other",
-		Explanation: "wip",
+		Explanation: "R-DISPATCH: for each of the 12 closure slots' dispatchers (Valid, String, IsEqual, Unmarshal, Marshal, Less, Evaluate on both types; push) the return paths are enumerated: the installed closure is invoked exactly when the slot is non-nil, the built-in implementation does not run on that path, the dispatcher returns the closure's own result (for Stack validity: true exactly when the closure returns nil), and with a nil slot the built-in code runs. R-SETTER: each exported setter stores its argument (nil included, so removal restores the default) into exactly its own slot. R-APPEND/R-POLICY: in the policy-gated append the policy is consulted only while isFull()==false (same memory epoch), once per loop iteration, the appended value is the approved one, a rejection calls setErr with the policy's own error and cannot reach another policy call or append. R-BASIC: a BASIC stack never stores a presentation policy and records a non-nil error; rendering is gated by canString (table checked: initialised, valid per the validity closure, kind neither 0 nor BASIC).",
+		NotDecided: "what the closures themselves do; 'once per offered value' is decided structurally (one call site inside the per-value loop), not as a count over executions",
 		Run: func(c *Ctx) {
 			c.ruleDispatch()
 			c.rulePushLoops()
 			c.ruleBasicRefusal()
+			c.rep.floor("R-DISPATCH", 12)
+			c.rep.floor("R-SETTER", 12)
+			c.rep.floor("R-POLICY", 3)
+			c.rep.floor("R-APPEND", 2)
 		},
 	},
 	"C13": {
 		Level: "other",
-		Explanation: "wip",
+		Explanation: "Both clauses of C13 are finite predicates and are decided exactly. R-TT enumerates the return paths of canPushNester (accept = not(isStack and no-nesting)), of Stack.CanNest / Condition.CanNest (initialised and bit clear) and of the Condition-side filter (a Stack is refused exactly under no-nesting; the previous expression is kept because the store is gated, R-CONDSTORE). R-APPEND proves that in the per-value loop the append is gated by the verdict on that very value and by isFull()==false with no write in between. R-OPTW proves that switching the option writes only the option word, so elements already present are untouched.",
+		NotDecided: "IsNesting's scan over all elements is checked only through the converter rules of C12 (not claimed here); behaviour under a custom push policy (documented to ignore the option)",
 		Run: func(c *Ctx) {
 			c.ttCanPushNester()
 			c.ttGetter("Stack.CanNest", "nnest", false)
 			c.ttGetter("Condition.CanNest", "nnest", false)
 			c.ttCondExprHandler()
+			c.ruleCondStores()
 			c.rulePushLoops()
 			c.ruleOptionWritesOnlyOpt()
+			c.rep.floor("R-TT", 5)
+			c.rep.floor("R-APPEND", 2)
+			c.rep.floor("R-OPTW", 20)
 		},
 	},
 	"C18": {
 		Level: "other",
-		Explanation: "wip",
+		Explanation: "R-FLAGS: the option constants are pairwise distinct single bits. R-MASK: shift/unshift/toggle/positive and their wrappers are exactly |=, &^=, test-and-branch on (receiver, parameter) - switching one option cannot alter another. R-TT: setState (both types) is compared row by row with the prescribed tri-state table (set on true, clear on false, toggle on no argument, nothing when uninitialised or read-only unless the flag is the read-only flag itself); the getters IsParen/IsPadded/IsReadOnly/CanNest have the stated polarity on both types. R-SWITCH: every public switch drives the option the documentation names, forwards its argument unchanged, and Stack/Condition agree. R-OPTW (in C13) / write sets: a switch writes only the option word. R-LATCH: FIFO mode is stored only after reading it as false with no write in between. R-PAIR: each setter/getter pair (ID, category, delimiter, auxiliary, error, keyword, operator, expression) goes through one field. R-KINDGUARD: the delimiter is stored only on LIST stacks, the symbol only on non-LIST stacks (the kind itself is immutable after construction). R-ENCDUP: an encapsulation pair is appended only when the duplicate scan found nothing. R-LOGLEVEL: the level set is merged with exactly |= / &^= of the resolved level, the NONE/ALL shortcuts are guarded by the level being exactly 0 / 65535, and the two name tables are mutually inverse.",
+		NotDecided: "'reflected in String()' for symbol and encapsulation (string-valued, C02's undecided part); the _random/_addr ID keywords; polarity of lead-once / fold / padding inside the rendering loop",
 		Run: func(c *Ctx) {
 			c.ruleFlagsDistinct()
 			c.ruleMask()
@@ -55,22 +84,39 @@ var properties = map[string]PropSpec{
 				c.ttGetter(t+".CanNest", "nnest", false)
 			}
 			c.ruleSwitchTable()
+			c.ruleOptionWritesOnlyOpt()
 			c.ruleLatch()
 			c.rulePair()
 			c.ruleSettingsGuards()
 			c.ruleLogLevels()
+			c.rep.floor("R-FLAGS", 26)
+			c.rep.floor("R-MASK", 13)
+			c.rep.floor("R-TT", 10)
+			c.rep.floor("R-SWITCH", 28)
+			c.rep.floor("R-PAIR", 24)
+			c.rep.floor("R-LATCH", 2)
+			c.rep.floor("R-LOGLEVEL", 6)
+			c.rep.floor("R-KINDGUARD", 2)
+			c.rep.floor("R-ENCDUP", 2)
 		},
 	},
 	"C17": {
 		Level: "other",
-		Explanation: "wip",
+		Explanation: "R-NIL: census of every nil-panic-capable instruction of the package (pointer loads/stores, field addresses, interface invokes, calls of function values, nil-map writes, external pointer-receiver calls); each is discharged by a non-nil fact on every path (forward path-sensitive DNF facts with relational callee summaries), by provenance, by the proved object invariants (R-INV: condition.cfg, nodeConfig.log, package loggers), or becomes a (conditional) precondition that is checked at every call site; exported entry points may have no precondition (A-RECV: the pointer receiver of the four pointer-receiver methods is assumed non-nil). R-REFL/R-CANIF: the same for every panicking reflect.Value call (validity, kind, CanInterface). R-HANDLE: only Free/Marshal/Init can write a handle; Free stores nil and only when initialised and not read-only (R-RO in C09); Marshal seats only a Stack IsInit() just confirmed. R-ZERO: each exported value-receiver method is re-analysed under the assumption that the embedded pointer is nil; every return path must yield the zero answer (documented exceptions: Valid/IsEqual an error, IsZero/IsEmpty/IsPadded true, Stack.ID/Kind their constants). R-ELEMINDEP: nothing reachable from Reset branches on an element being nil, and Reset writes only content and lock bookkeeping.",
+		NotDecided: "panics inside user closures / String() methods and the Go runtime; index-range panics are C08's R-BND (not part of this check)",
 		Run: func(c *Ctx) {
+			c.ruleNoUnsafe()
 			c.ruleInv()
-			c.ruleNil("R-NIL", nil)
-			c.ruleRefl("R-REFL", nil)
+			c.ruleCensus(nil, map[string]bool{"R-NIL": true, "R-REFL": true})
+			c.ruleCanif()
 			c.ruleHandle()
 			c.ruleZeroResults()
 			c.ruleResetElemIndependent()
+			c.rep.floor("R-NIL", 1300)
+			c.rep.floor("R-REFL", 30)
+			c.rep.floor("R-ZERO", 120)
+			c.rep.floor("R-HANDLE", 8)
+			c.rep.floor("R-INV", 9)
 		},
 	},
 	"C11": {
